@@ -74,7 +74,13 @@ func (r *Registry) RegisterCounter(opts CounterOpts) (*Counter, error) {
 	}
 	actual, loaded := r.metrics.LoadOrStore(opts.Name, c)
 	if loaded {
-		existing := actual.(*Counter)
+		existing, ok := actual.(*Counter)
+		if !ok {
+			// Another goroutine registered this name with a different metric
+			// type between the Load above and this LoadOrStore.
+			r.registrationErrors.Add(1)
+			return nil, fmt.Errorf("%w: %q is %s", ErrTypeMismatch, opts.Name, actual.(metric).metricType())
+		}
 		if !labelNamesEqual(existing.opts.Labels, opts.Labels) {
 			r.registrationErrors.Add(1)
 			return nil, fmt.Errorf("%w: %q", ErrSchemaMismatch, opts.Name)
@@ -119,7 +125,13 @@ func (r *Registry) RegisterGauge(opts GaugeOpts) (*Gauge, error) {
 	}
 	actual, loaded := r.metrics.LoadOrStore(opts.Name, g)
 	if loaded {
-		existing := actual.(*Gauge)
+		existing, ok := actual.(*Gauge)
+		if !ok {
+			// Another goroutine registered this name with a different metric
+			// type between the Load above and this LoadOrStore.
+			r.registrationErrors.Add(1)
+			return nil, fmt.Errorf("%w: %q is %s", ErrTypeMismatch, opts.Name, actual.(metric).metricType())
+		}
 		if !labelNamesEqual(existing.opts.Labels, opts.Labels) {
 			r.registrationErrors.Add(1)
 			return nil, fmt.Errorf("%w: %q", ErrSchemaMismatch, opts.Name)
@@ -172,7 +184,13 @@ func (r *Registry) RegisterHistogram(opts HistogramOpts) (*Histogram, error) {
 	}
 	actual, loaded := r.metrics.LoadOrStore(opts.Name, h)
 	if loaded {
-		existing := actual.(*Histogram)
+		existing, ok := actual.(*Histogram)
+		if !ok {
+			// Another goroutine registered this name with a different metric
+			// type between the Load above and this LoadOrStore.
+			r.registrationErrors.Add(1)
+			return nil, fmt.Errorf("%w: %q is %s", ErrTypeMismatch, opts.Name, actual.(metric).metricType())
+		}
 		if !labelNamesEqual(existing.opts.Labels, opts.Labels) || !bucketsEqual(existing.opts.Buckets, opts.Buckets) {
 			r.registrationErrors.Add(1)
 			return nil, fmt.Errorf("%w: %q", ErrSchemaMismatch, opts.Name)
